@@ -259,6 +259,63 @@ def _replay(cl, fields, ops, free_e):
 
 
 # ------------------------------------------------------------------------------------------------------------------
+# objects that lack fields (what unpickling returns for an object stored by a release that predates a field)
+
+def legacy(cl, fields, vals, present):
+    """a Capacities whose __dict__ holds only the fields flagged in `present` (unpickling restores __dict__, no __init__)"""
+    import pickle
+    o = cl.Capacities.__new__(cl.Capacities)
+    o.__dict__.update({f: v for f, v, p in zip(fields, vals, present) if p})
+    return pickle.loads(pickle.dumps(o))
+
+
+def probe_eq_missing(cl, fields):
+    """How does `a == b` read a field of b that b does not carry?  Behavioural: a (complete) holds v in the field, b lacks it, every
+    other field equal.  The set of v for which the answer is True must be {d} (-> `some d`: the field reads as d) or empty
+    (-> `none`: it reads as something no int equals).  Also pinned: fields both carry are still compared, and the loop runs over
+    the LEFT operand's own fields only (a field only the right operand carries is not looked at)."""
+    n = len(fields)
+    drops = [[i] for i in range(n)] + [[n - 2, n - 1], [0, 2], list(range(1, n))]
+    probes = sorted(set(BASIS + [3, -2]))
+    answers = []
+    for drop in drops:
+        present = [i not in drop for i in range(n)]
+        eq_at = []
+        for v in probes:
+            a = [v if i in drop else 5 for i in range(n)]
+            try:
+                A, B = _mk(cl, fields, a), legacy(cl, fields, [5] * n, present)
+                r = A == B
+                # a field both carry still decides
+                if any(present):
+                    k = present.index(True)
+                    a2 = list(a)
+                    a2[k] = 6
+                    if (_mk(cl, fields, a2) == legacy(cl, fields, [5] * n, present)) is not False:
+                        raise ExtractionError("__eq__ ignores field %s when the other object lacks %s" % (fields[k], [fields[i] for i in drop]))
+                # the left operand's own fields drive the loop
+                l = legacy(cl, fields, [5] * n, present) == _mk(cl, fields, a)
+                if l is not True:
+                    raise ExtractionError("__eq__ with a left operand lacking %s looks at fields the left operand does not carry" % [fields[i] for i in drop])
+            except ExtractionError:
+                raise
+            except Exception as e:
+                raise ExtractionError("__eq__ raises %s when an operand lacks %s" % (type(e).__name__, [fields[i] for i in drop]))
+            if type(r) is not bool:
+                raise ExtractionError("__eq__ answers %r" % type(r).__name__)
+            if r:
+                eq_at.append(v)
+        if len(eq_at) > 1:
+            raise ExtractionError("__eq__: a field the other object lacks compares equal to several values %s" % eq_at[:3])
+        answers.append((drop, eq_at[0] if eq_at else None))
+    first = answers[0][1]
+    for drop, d in answers:
+        if d != first:
+            raise ExtractionError("__eq__ reads a missing %s as %r, a missing %s as %r" % (fields[answers[0][0][0]], first, [fields[i] for i in drop], d))
+    return first
+
+
+# ------------------------------------------------------------------------------------------------------------------
 # light AST check + method list
 
 def _ast_check(tree):
@@ -359,6 +416,11 @@ def generate():
              "operator exists), `false` = the name is rebound to a new object and `a` keeps its value -/\n")
     body += "def iaddInPlace : Bool := %s\ndef isubInPlace : Bool := %s\n" % tuple("true" if inplace[k] else "false" for k in ("iadd", "isub"))
     text["freeOp"] = free_txt
+    eq_missing = probe_eq_missing(cl, fields)
+    body += ("\n/-- `a == b` where b's `__dict__` lacks a field (an object restored from a pickle of an older release), probed on the real "
+             "method: `some d` = the missing field reads as the int `d`, `none` = it reads as something no int equals -/\n")
+    body += "def eqMissing : Option Int := %s\n" % ("none" if eq_missing is None else "some (%d : Int)" % eq_missing)
+    text["eqMissing"] = eq_missing
     changed = emit("CapOps", body)
     return {"fields": fields, "methods": methods, "ops": text, "augmented_in_place": inplace, "changed": changed, "technique": "symbolic execution + concrete replay",
             "concrete_replay_vectors": len(_concrete_vectors(len(fields))), "span": span_hash(src, cap)}
